@@ -148,7 +148,7 @@ fn lean_error(e: &Error) -> String {
 
 /// A well-formed value for each property identifier of MQTT 5.0 §2.2.2.2 (wire type from the
 /// standard's table; values chosen inside every per-property range restriction).
-fn std_property(id: u8) -> Option<Vec<u8>> {
+pub fn std_property(id: u8) -> Option<Vec<u8>> {
     let one_byte = [0x01u8, 0x17, 0x19, 0x24, 0x25, 0x28, 0x29, 0x2a];
     let two_byte = [0x13u8, 0x21, 0x22, 0x23];
     let four_byte = [0x02u8, 0x11, 0x18, 0x27];
@@ -173,7 +173,7 @@ fn std_property(id: u8) -> Option<Vec<u8>> {
 }
 
 /// The smallest frame of each property-carrying position with the given property section.
-fn host_frame(host: &str, props: &[u8]) -> Vec<u8> {
+pub fn host_frame(host: &str, props: &[u8]) -> Vec<u8> {
     let mut section = vec![props.len() as u8];
     section.extend_from_slice(props);
     let (first, body): (u8, Vec<u8>) = match host {
@@ -216,6 +216,19 @@ fn prop_allowed(host: &str) -> (bool, Vec<u8>) {
     (base_ok, ids)
 }
 
+thread_local! {
+    /// every argument at which one of the four length helpers changes its value or starts failing
+    pub static BREAKS: std::cell::RefCell<Vec<usize>> = std::cell::RefCell::new(Vec::new());
+}
+
+fn note_breaks(rows: &[(usize, u64)], err_from: Option<usize>) {
+    BREAKS.with(|b| {
+        let mut b = b.borrow_mut();
+        b.extend(rows.iter().map(|r| r.0));
+        b.extend(err_from);
+    });
+}
+
 pub fn gen_tables(full_scan: bool) -> String {
     let mut out = String::new();
     out.push_str("/-\n  GENERATED by `harness gen-tables` from the code in /repo — do not edit.\n  Every table is the result of running the real function over its whole domain.\n-/\nimport Mqtt.Gen.Kinds\n\nnamespace Mqtt.Gen\n\n");
@@ -223,6 +236,7 @@ pub fn gen_tables(full_scan: bool) -> String {
     let hi = if full_scan { SCAN_MAX } else { SCAN_MAX };
     // var_int_len
     let (rows, err_from, closed) = steps(0, hi, |n| var_int_len(n).ok().map(|v| v as u64));
+    note_breaks(&rows, err_from);
     writeln!(out, "def scanMax : Nat := {}", hi).unwrap();
     writeln!(out, "def varIntLenSteps : List (Nat × Nat) := {}", lean_rows(&rows)).unwrap();
     writeln!(out, "def varIntLenErrFrom : Nat := {}", err_from.unwrap_or(hi + 1)).unwrap();
@@ -230,14 +244,17 @@ pub fn gen_tables(full_scan: bool) -> String {
     // total_len: value - n
     let (rows, err_from, closed) =
         steps(0, hi, |n| total_len(n).ok().map(|v| (v as u64).wrapping_sub(n as u64)));
+    note_breaks(&rows, err_from);
     writeln!(out, "def totalLenSteps : List (Nat × Nat) := {}", lean_rows(&rows)).unwrap();
     writeln!(out, "def totalLenErrFrom : Nat := {}", err_from.unwrap_or(hi + 1)).unwrap();
     writeln!(out, "def totalLenErrClosed : Bool := {}", closed).unwrap();
     // header_len
     let (rows, _, _) = steps(0, hi, |n| Some(header_len(n) as u64));
+    note_breaks(&rows, None);
     writeln!(out, "def headerLenSteps : List (Nat × Nat) := {}", lean_rows(&rows)).unwrap();
     // remaining_len: total - remaining_len(total), from total = 2 (below that the Rust subtraction underflows)
     let (rows, _, _) = steps(2, hi, |n| Some((n as u64).wrapping_sub(remaining_len(n) as u64)));
+    note_breaks(&rows, None);
     writeln!(out, "def remainingLenSteps : List (Nat × Nat) := {}", lean_rows(&rows)).unwrap();
     out.push('\n');
 
